@@ -64,9 +64,9 @@ struct Grid {
 
 fn grid(thorough: bool) -> Grid {
     if thorough {
-        Grid { max_len: 5, caps: vec![1, 2, 3, 4, 8, 16], budget: 3, timeouts: vec![0, 1, 999_999_999, 1_000_000_000, 1_500_000_000, 86_400_000_000_000] }
+        Grid { max_len: 5, caps: vec![1, 2, 3, 4, 8, 16], budget: 3, timeouts: vec![0, 1, 999_999_999, 1_000_000_000, 1_500_000_000, 86_400_000_000_000, u64::MAX] }
     } else {
-        Grid { max_len: 4, caps: vec![1, 2, 3, 4, 16], budget: 2, timeouts: vec![0, 1, 1_500_000_000] }
+        Grid { max_len: 4, caps: vec![1, 2, 3, 4, 16], budget: 2, timeouts: vec![0, 1, 1_500_000_000, u64::MAX] }
     }
 }
 
@@ -105,6 +105,15 @@ fn cases(g: &Grid) -> Vec<Case> {
     }
     for peer in [PeerMode::Ready, PeerMode::Late, PeerMode::Absent] {
         v.push(Case { scen: Scen::InProgBlocking, fam: Fam::Tcp, len: 0, cap: 4, mode: 0, timeout: None, peer, obtain: 0, use_: 0, rx: 0, child: false });
+    }
+    // --- unix connect while the listener's accept queue is full; the peer accepts at an enumerated point
+    v.push(Case { scen: Scen::Connect, fam: Fam::Unix, len: 0, cap: 4, mode: 0, timeout: None, peer: PeerMode::BacklogFull, obtain: 0, use_: 0, rx: 0, child: false });
+    v.push(Case { scen: Scen::TryConnect, fam: Fam::Unix, len: 0, cap: 4, mode: 0, timeout: None, peer: PeerMode::BacklogFull, obtain: 0, use_: 0, rx: 0, child: false });
+    // --- a third process on the same descriptor wins the race after the wake-up (outcome class only)
+    for &fam in &fams {
+        v.push(Case { scen: Scen::Accept, fam, len: 0, cap: 4, mode: 0, timeout: None, peer: PeerMode::Thief, obtain: 0, use_: 0, rx: 0, child: false });
+        v.push(Case { scen: Scen::AcceptTimeout, fam, len: 0, cap: 4, mode: 0, timeout: Some(1_500_000_000), peer: PeerMode::Thief, obtain: 0, use_: 0, rx: 0, child: false });
+        v.push(Case { scen: Scen::Read, fam, len: 2, cap: 4, mode: 3, timeout: None, peer: PeerMode::Thief, obtain: 0, use_: 0, rx: 0, child: false });
     }
     // --- every way of obtaining a stream x every way of using it, peer connected but silent
     for &fam in &fams {
@@ -270,7 +279,7 @@ fn menu_from(conf: &Report) -> (Menu, Vec<String>) {
     m.ppoll_eintr = get("ppoll-eintr");
     m.ppoll_timeout = get("ppoll-timeout");
     m.eintr_writeback = get("ppoll-eintr-writeback");
-    m.unix_connect_eagain = get("unix-connect-eagain-then-ok");
+    m.unix_connect_eagain = get("unix-connect-eagain-then-ok") & get("unix-connect-full-backlog-pollout-at-once-then-eagain-again");
     m.tcp_einprogress = get("tcp-connect-einprogress-then-0");
     m.tcp_ealready = get("tcp-connect-ealready");
     m.tcp_refused = get("tcp-connect-refused");
@@ -329,7 +338,9 @@ fn model_phase(args: &Args) -> Report {
          socket (a wait that also asks for POLLIN then returns at once while the send FIFO is still full and the retry answers EAGAIN again); after a would-block answer the events of the \
          following ppoll must be the direction the operation needs (POLLOUT for write/connect, POLLIN for read/accept) and nothing of the other direction (waits-for-wrong-events). \
          Close-on-exec is tracked per descriptor (socket()/accept4() flags, fcntl F_SETFD): for every obtaining variant x {{no child, a model fork+exec of a long-lived child between \
-         obtaining and dropping the stream (exec closes exactly the child's CLOEXEC copies)}} the model peer must read end-of-stream after the drop (peer-sees-no-eof-after-drop).",
+         obtaining and dropping the stream (exec closes exactly the child's CLOEXEC copies)}} the model peer must read end-of-stream after the drop (peer-sees-no-eof-after-drop). \
+         Unix connect with a FULL accept queue (as witnessed: EAGAIN on every attempt until the peer accepts, the unconnected socket polls writable at once) with the peer's accept as an \
+         enumerated action; time-outs include Duration::MAX (> i64::MAX s: outcome class only); a third process winning the race after a wake-up is an outcome class only.",
         g.caps, g.max_len, g.timeouts, budget
     );
     r.bound("deviation_budget", budget);
@@ -370,6 +381,13 @@ fn replay(v: &Value, r: &mut Report) {
         "real-connect-blocking" => {
             println!("replaying on the REAL kernel: TcpStream::try_connect to a listener with a full accept queue, then connect_blocking()");
             conform::real_connect_blocking(r);
+            for s in &r.samples {
+                println!("  observed: {s}");
+            }
+        }
+        "real-unix-connect-full-backlog" => {
+            println!("replaying on the REAL kernel: UnixStream::connect to a listener whose accept queue is full, the peer accepts 200 ms later");
+            conform::real_unix_connect_full_backlog(r);
             for s in &r.samples {
                 println!("  observed: {s}");
             }
